@@ -10,7 +10,7 @@ NAMES = ['a', 'b', 'c', 'd', 'e', 'f', 'g', 'h']
 def gen_case(rng):
     n = rng.randint(2, 7)
     steps = []
-    heavy = rng.random() < 0.3          # runs of parallel steps longer than ncpu
+    heavy = rng.random() < 0.45         # runs of parallel steps longer than ncpu
     if heavy:
         n = rng.randint(4, 7)
     for i in range(n):
@@ -22,6 +22,9 @@ def gen_case(rng):
     # completion order preference: a permutation; among the steps running at a time the earliest in this list finishes first
     order = [s['name'] for s in steps]
     rng.shuffle(order)
+    if heavy and rng.random() < 0.6:
+        # newest first: while the queue is full, a job that is not the oldest finishes first
+        order = [s['name'] for s in reversed(steps)]
     return {'steps': steps, 'skip': skip, 'ncpu': ncpu, 'order': order, 'detached': rng.random() < 0.25,
             'second_invocation': rng.random() < 0.2}
 
@@ -74,6 +77,10 @@ def run_case(ctx, impl, drv, case):
             ok = orch_env.wait_for(lambda: [t[1] for t in cv.trace() if t[0] == 'start'] == want or
                                    len([t for t in cv.trace() if t[0] == 'start']) > len(want), timeout=8)
             got = [t[1] for t in cv.trace() if t[0] == 'start']
+            if got == want:
+                # nothing more may start before the next completion: give an over-eager loop the time to show itself
+                time.sleep(0.04 if m['running'] else 0.0)
+                got = [t[1] for t in cv.trace() if t[0] == 'start']
             ob['rounds'].append({'finished': list(finished), 'model_starts': want, 'impl_starts': got})
             lk = cv.lockfile()
             bds = cv.builddirs()
